@@ -48,6 +48,14 @@ theorem sinkClose_false (n : Node) : sinkClose false n = snapInstall n := by
 theorem sinkClose_true (n : Node) : sinkClose true n = snapFingerprint (snapInstall n) := by
   simp [sinkClose, snapInstall, snapFingerprint, sinkCloseSteps, List.take, List.foldl, sinkStep]
 
+theorem sinkCloseK_refused (ok : Bool) (n : Node) (h : n.fullNeeded = true) :
+    sinkCloseK .incremental ok n = ({ n with snapTmp := none }, true) := by
+  simp [sinkCloseK, sinkCloseSteps, List.foldl, sinkStepK, sinkRefuses, h]
+
+theorem sinkCloseK_accepted (kind : SnapKind) (ok : Bool) (n : Node) (h : sinkRefuses kind n = false) :
+    sinkCloseK kind ok n = (sinkClose ok n, false) := by
+  simp [sinkCloseK, sinkClose, sinkCloseSteps, List.foldl, sinkStepK, h, sinkStep]
+
 /-- a complete snapshot is: checkpoint, the steps of `Persist`, the steps of `Sink.Close`, compaction -/
 theorem snapshot_is_step_lists (n : Node) (t : Nat) :
     snapshot n t = snapCompact (sinkClose true (persistSteps.foldl (persistStep true) (snapCheckpoint n))) t := by
@@ -286,8 +294,7 @@ theorem load_during_incremental_snapshot_end_to_end {n : Node} (g : Good n) (d :
   have g2 : Good (write (snapCheckpoint n) (.load d)) := good_apply g1 (.write (.load d))
   have hl : (write (snapCheckpoint n) (.load d)).live = d := live_apply g1 (.write (.load d))
   have hfn : m.fullNeeded = true := by simp [m, snapPersist_eq]; rfl
-  have hr : sinkCloseK .incremental ok m = ({ m with snapTmp := none }, true) := by
-    simp [sinkCloseK, sinkRefuses, hfn]
+  have hr : sinkCloseK .incremental ok m = ({ m with snapTmp := none }, true) := sinkCloseK_refused ok m hfn
   rw [hr]
   refine ⟨rfl, ?_⟩
   have hd : DurInv (crash { m with snapTmp := none }) :=
@@ -362,14 +369,17 @@ theorem load_forces_full_snapshot (n : Node) (d : Db) (ok : Bool) :
      sinkCloseK .full ok m = (sinkClose ok m, false) ∧
      snapKindDue (sinkCloseK .full ok m).1 = .incremental) := by
   refine ⟨rfl, ?_⟩
-  cases ok <;>
-    simp [sinkCloseK, sinkRefuses, snapPersist, persistSteps, persistStep, List.foldl, write, fsmApply, appendEntry,
-      swapRun, swapSteps, swapStep, snapCheckpoint, snapKindDue, sinkClose, sinkCloseSteps, sinkStep]
+  intro m
+  have hfn : m.fullNeeded = true := by simp [m, snapPersist_eq]; rfl
+  rw [sinkCloseK_refused ok m hfn, sinkCloseK_accepted .full ok m (by simp [sinkRefuses])]
+  refine ⟨rfl, ?_, hfn, rfl, ?_⟩
+  · simp [m, snapPersist_eq]; rfl
+  · cases ok <;> simp [snapKindDue, sinkClose, sinkCloseSteps, List.foldl, sinkStep]
 
 /-- without a load no full snapshot is due: incremental snapshots are accepted -/
 theorem incremental_accepted_without_load (n : Node) (h : n.fullNeeded = false) (ok : Bool) :
     snapKindDue n = .incremental ∧ sinkCloseK .incremental ok n = (sinkClose ok n, false) := by
-  simp [snapKindDue, sinkCloseK, sinkRefuses, h]
+  exact ⟨by simp [snapKindDue, h], sinkCloseK_accepted .incremental ok n (by simp [sinkRefuses, h])⟩
 
 /-- **boot_then_snapshot**: a boot ends with the booted database live, installed as the
 newest snapshot at the last index, and it is what a restart on either path produces -/
